@@ -255,7 +255,7 @@ theorem step_dropBarrier_live {s : State} {b : Nat} (h : isLive b s.regs = true)
       ({ s with regs := removeId b s.regs,
                 lost := fun x => if x = b then queueOf b s.regs else s.lost x,
                 suspended := without s.suspended (heldTids (queueOf b s.regs)) },
-        ⟨.ok, heldTids (queueOf b s.regs)⟩) := by
+        ⟨.ok, stillParked s.suspended (heldTids (queueOf b s.regs))⟩) := by
   simp [step, h]
 
 theorem step_dropBarrier_dead {s : State} {b : Nat} (h : isLive b s.regs = false) :
@@ -301,6 +301,7 @@ theorem R_step {s : State} {sp : SpecSt} (h : R s sp) (op : Op) : R (step s op).
     · exact ⟨hl, hb, ht⟩
     · exact ⟨by simp [proj_popFront, hl], hb, ht⟩
   | dropHandle t => exact ⟨hl, hb, ht⟩
+  | abandon t => exact ⟨hl, hb, ht⟩
   | dropBarrier b =>
     simp only [step, specStep]
     split
@@ -396,6 +397,7 @@ theorem WF_step {s : State} (h : WF s) (op : Op) : WF (step s op).1 := by
     · refine ⟨fun e he => h1' _ (mem_popFront he), by simpa [ids_popFront] using h2, h3, ?_⟩
       intro b' hb; simp only [isLive_popFront] at hb; exact h4 b' hb
   | dropHandle t => exact ⟨h1, h2, h3, h4⟩
+  | abandon t => exact ⟨h1, h2, h3, h4⟩
   | dropBarrier b =>
     simp only [step]
     split
